@@ -541,6 +541,13 @@ namespace cds { namespace algo {
             */
             void wakeup_any()
             {
+                // The publication list can be compacted by a combiner (records of finished threads are freed),
+                // so it may be traversed only under the combiner lock. If the lock is busy there is an active
+                // combiner that serves pending requests itself and nobody has to be woken up.
+                if ( !m_Mutex.try_lock())
+                    return;
+                lock_guard l( m_Mutex, std::adopt_lock_t());
+
                 publication_record* pRec = m_pHead;
                 while ( pRec ) {
                     if ( pRec->nState.load( memory_model::memory_order_acquire ) == active
